@@ -110,7 +110,7 @@ def _pick(x, n: int) -> int:
 
 def _agree(n, inc, incR, flags, rt, rflag, variant, preset) -> bool:
     try:
-        got = _with_alarm(60, analyze, ctx, n, inc, incR, flags, rt, rflag, variant, preset)
+        got = _with_alarm(15, analyze, ctx, n, inc, incR, flags, rt, rflag, variant, preset)
     except NotTerminating:
         ctx.db_conn.rollback()
         return False
@@ -135,7 +135,7 @@ def replay_case(n, inc, incR, flags, rt, rflag, variant="lc", preset=()):
     c = Wtp(quiet=True, quiet_output=True)
     want = reference(n, inc, incR, flags, rt, rflag)
     try:
-        got = _with_alarm(60, analyze, c, n, inc, incR, flags, rt, rflag, variant, preset)
+        got = _with_alarm(15, analyze, c, n, inc, incR, flags, rt, rflag, variant, preset)
     except NotTerminating as e:
         got = {"<" + str(e) + ">"}
     edges = [f"{NAMES[i]} includes {NAMES[j] if inc[i][j] == 1 else VARIANTS[variant](NAMES[j])!r}" for i in range(n) for j in range(n) if inc[i][j]]
@@ -195,7 +195,7 @@ def reference_chain(n, inc, incR, rinc, flags, rt, rflag):
 
 def _agree_chain(n, inc, incR, rinc, flags, rt, rflag) -> bool:
     try:
-        got = _with_alarm(60, analyze_chain, ctx, n, inc, incR, rinc, flags, rt, rflag)
+        got = _with_alarm(15, analyze_chain, ctx, n, inc, incR, rinc, flags, rt, rflag)
     except NotTerminating:
         ctx.db_conn.rollback()
         return False
@@ -218,7 +218,7 @@ def replay_chain(n, inc, incR, rinc, flags, rt, rflag):
     c = Wtp(quiet=True, quiet_output=True)
     want = reference_chain(n, inc, incR, rinc, flags, rt, rflag)
     try:
-        got = _with_alarm(60, analyze_chain, c, n, inc, incR, rinc, flags, rt, rflag)
+        got = _with_alarm(15, analyze_chain, c, n, inc, incR, rinc, flags, rt, rflag)
     except NotTerminating as e:
         got = {"<" + str(e) + ">"}
     edges = [f"{NAMES[i]} includes {NAMES[j]}" for i in range(n) for j in range(n) if inc[i][j]]
